@@ -215,8 +215,13 @@ def check_opcode(I, opc, props, pr, profile='dev'):
             for i in range(11):
                 r, m = pr.prove(f'{name}:r{i}', assume, Q.regs[i] == exp_regs[i], sample=f'{name}: r{i}\' = SPEC for all dst/src/imm/off/operands' if i == 0 else None)
                 if r == 'sat': cand(f'interp/{name}/reg-value', f'r{i} differs from the ISA value', m, dict(got=Q.regs[i], want=exp_regs[i], reg=BitVecVal(i, 8)), path=p)
-            r, m = pr.prove(f'{name}:pc', assume, Q.pc == exp_pc, sample=f'{name}: pc\' = SPEC (pc+1, pc+2 after lddw, pc+1+off if taken)')
-            if r == 'sat': cand(f'interp/{name}/pc-value', 'next pc differs from the ISA value', m, dict(got=Q.pc, want=exp_pc), path=p)
+            splits = [('', [])]
+            if k == 'jcond' and not info['x'] and info['w'] == 64 and info['op'] in ('jeq', 'jne', 'jgt', 'jge', 'jlt', 'jle'):
+                # the two immediate classes are separate obligations so that a finding in one cannot hide the other
+                splits = [('', [P.imm >= 0]), (':negative-imm-in-unsigned-64bit-compare', [P.imm < 0])]
+            for suffix, extra_a in splits:
+                r, m = pr.prove(f'{name}:pc{suffix}', assume + extra_a, Q.pc == exp_pc, sample=f'{name}: pc\' = SPEC (pc+1, pc+2 after lddw, pc+1+off if taken)')
+                if r == 'sat': cand(f'interp/{name}/pc-value{suffix}', 'next pc differs from the ISA value', m, dict(got=Q.pc, want=exp_pc), path=p)
             r, m = pr.prove(f'{name}:mem', assume, Q.M == exp_M, sample=f'{name}: memory\' = SPEC (same stores, same bytes)' if O.access else None)
             if r == 'sat': cand(f'interp/{name}/mem-value', 'memory after the instruction differs from the ISA value', m, path=p)
             r, m = pr.prove(f'{name}:frames', assume, And(Q.sfi == exp_sfi, *frames_eq(Q.frames, exp_frames)))
